@@ -282,6 +282,7 @@ class ChargeInfo:
         if charges is None:
             return np.zeros((self.qnumber,), dtype=QTYPE)
         charges = np.array(charges, dtype=QTYPE)  # copy: don't modify the argument
+        assert charges.shape[-1] == self._qnumber, "qnumber of `charges` doesn't match chinfo.qnumber"
         charges[..., self._mask] = np.mod(charges[..., self._mask], self._mod_masked)
         return charges
 
